@@ -139,37 +139,64 @@ def run_check(prop: str, tier: str, seed: int, only=None):
             violations.append((ob, detail))
         else:
             undecided.append((ob.name, st, detail[:200]))
-    # ---- violations: counter-model -> replay
+    # ---- violations: counter-model -> replay.  Undecided obligations get a bounded native refutation
+    # search through the same replayers; only a natively reproduced failure turns them into a violation.
     rdir = os.path.join(ROOT, "replays", prop)
     os.makedirs(rdir, exist_ok=True)
     for old in os.listdir(rdir):
         os.unlink(os.path.join(rdir, old))
     vio_records = []
     seen_base = set()
-    for ob, detail in violations:
+    replay_cache = {}
+    by_name = {ob.name: ob for ob in res.obligations}
+
+    def handle(ob, verdict, detail):
         b = base_name(ob.name)
         if b in seen_base:
-            continue
+            return None
         seen_base.add(b)
         inputs = None
-        try:
-            inputs = counter_model(ob, col)
-        except Exception as e:  # noqa
-            inputs = {"$error": repr(e)}
+        if verdict == "sat":
+            try:
+                inputs = counter_model(ob, col)
+            except Exception as e:  # noqa
+                inputs = {"$error": repr(e)}
         rec = {"property": prop, "obligation": ob.name, "kernel": ob.kernel, "kind": ob.kind, "where": ob.where,
-               "clause": ob.info.get("clause", ""), "goal": str(ob.goal)[:2000], "solver_verdict": "sat",
+               "clause": ob.info.get("clause", ""), "goal": str(ob.goal)[:2000], "solver_verdict": verdict,
                "solver_model": detail, "inputs": inputs, "repo": extract.REPO}
         fn = re.sub(r"[^A-Za-z0-9_.#-]", "_", ob.name)[:150] + ".json"
-        path = os.path.join(ROOT, "replays", prop, fn)
+        path = os.path.join(rdir, fn)
         with open(path, "w") as f:
             json.dump(rec, f, indent=1, default=str)
-        reproduced, out = native_replay(path)
-        rec["native_replay"] = {"reproduced": reproduced, "output": out[-2000:]}
+        ck = (ob.kernel, json.dumps(inputs, default=str, sort_keys=True) if verdict == "sat" else base_name(ob.name).split("#")[0] + ob.info.get("clause", ""))
+        if verdict != "sat" and ck in replay_cache:
+            reproduced, out = replay_cache[ck]
+        else:
+            reproduced, out = native_replay(path)
+            replay_cache[ck] = (reproduced, out)
+        rec["native_replay"] = {"reproduced": reproduced, "output": (out or "")[-2000:]}
         with open(path, "w") as f:
             json.dump(rec, f, indent=1, default=str)
+        return path, reproduced
+
+    for ob, detail in violations:
+        r = handle(ob, "sat", detail)
+        if r is None:
+            continue
+        path, reproduced = r
         suffix = "" if reproduced else " no-failing-input-found"
         lines.append(f"VIOLATION property={prop} replay={path} obligation={ob.name}{suffix}")
-        vio_records.append({"obligation": ob.name, "replay": path, "reproduced": reproduced})
+        vio_records.append({"obligation": ob.name, "replay": path, "reproduced": reproduced, "solver": "sat"})
+    still_undecided = []
+    for name, st_, d in undecided:
+        ob = by_name.get(name)
+        r = handle(ob, st_, d) if ob is not None else None
+        if r is not None and r[1]:
+            lines.append(f"VIOLATION property={prop} replay={r[0]} obligation={name} (solver undecided; failing input found by bounded native search)")
+            vio_records.append({"obligation": name, "replay": r[0], "reproduced": True, "solver": st_})
+        else:
+            still_undecided.append((name, st_, d))
+    undecided = still_undecided
     # ---- known findings: witness replay
     kf_report = []
     for kfe in known_for:
